@@ -161,10 +161,14 @@ impl Report {
         std::fs::write(&evpath, serde_json::to_string_pretty(&ev).unwrap())
             .expect("write evidence");
         if !self.machinery_errors.is_empty() {
-            for m in &self.machinery_errors {
+            for m in self.machinery_errors.iter().take(20) {
                 eprintln!("MACHINERY-ERROR property={} {}", self.property, m);
             }
-            return 2;
+            // a violation that was found, replayed and written out stands on its own; parts of
+            // the exploration that broke down do not take it back
+            if new_violations == 0 {
+                return 2;
+            }
         }
         if new_violations > 0 {
             println!(
